@@ -879,62 +879,89 @@ func (c *c05ctx) run(base *vkit.Rand) {
 		return
 	}
 	r.Seen("stacks", c.stack)
-	idx := 0
-	// block 1: exhaustive single ranges on small objects (+ multi-range lists)
-	shapeRng := base.Fork("shapes/exhaustive") // same shapes on every stack
-	for _, sh := range exhaustiveShapes(r, shapeRng) {
-		o := c.makeObject(idx, sh)
-		idx++
-		if o == nil {
-			continue
-		}
-		singles := exhaustiveSingles(sh.size())
-		for n, s := range singles {
-			if s.Kind == "fl" && c.stack != c05Stacks[0] && !r.Thorough() && bigOf(s.Last).Cmp(bigOf(s.First)) < 0 {
-				// last<first is syntactically invalid (observed only, decided before any
-				// part store is touched): in the quick tier only the first stack sends them
-				continue
-			}
-			c.check(o, []rspec{s}, ",", n%16 == 0, true)
-		}
-		c.exh.mu.Lock()
-		c.exh.Objects++
-		c.exh.Ranges += int64(len(singles))
-		if sh.size() > c.exh.MaxSize {
-			c.exh.MaxSize = sh.size()
-		}
-		c.exh.mu.Unlock()
-		mrng := base.Fork("multi/" + c.stack + "/" + sh.label())
-		for m := 0; m < r.N(60, 400); m++ {
-			specs, tags := genMulti(mrng, sh.size(), nil)
-			for t := range tags {
-				r.Count("multi_lists:"+t, 1)
-			}
-			r.Count(fmt.Sprintf("multi_lists_by_length:%d", len(specs)), 1)
-			c.check(o, specs, pickS(mrng, ",", ", "), m%4 == 0, true)
-		}
+	// objects are created one after the other (deterministic keys); the checks
+	// of different objects then run on a few goroutines per stack
+	type job struct {
+		o   *c05obj
+		exh bool
 	}
-	// block 2: larger objects, ranges aimed at part / segment edges
-	shapeRng = base.Fork("shapes/sampled")
-	for _, sh := range sampledShapes(r, shapeRng) {
-		o := c.makeObject(idx, sh)
+	var jobs []job
+	idx := 0
+	for _, sh := range exhaustiveShapes(r, base.Fork("shapes/exhaustive")) { // same shapes on every stack
+		if o := c.makeObject(idx, sh); o != nil {
+			jobs = append(jobs, job{o, true})
+		}
 		idx++
-		if o == nil {
+	}
+	for _, sh := range sampledShapes(r, base.Fork("shapes/sampled")) {
+		if o := c.makeObject(idx, sh); o != nil {
+			jobs = append(jobs, job{o, false})
+		}
+		idx++
+	}
+	sem := make(chan struct{}, 3)
+	var wg sync.WaitGroup
+	for _, j := range jobs {
+		wg.Add(1)
+		sem <- struct{}{}
+		go func() {
+			defer wg.Done()
+			defer func() { <-sem }()
+			if j.exh {
+				c.exhaustiveObject(j.o, base)
+			} else {
+				c.sampledObject(j.o, base)
+			}
+		}()
+	}
+	wg.Wait()
+}
+
+// block 1: exhaustive single ranges on a small object (+ multi-range lists)
+func (c *c05ctx) exhaustiveObject(o *c05obj, base *vkit.Rand) {
+	r, sh := c.r, o.shape
+	singles := exhaustiveSingles(sh.size())
+	for n, s := range singles {
+		if s.Kind == "fl" && c.stack != c05Stacks[0] && !r.Thorough() && bigOf(s.Last).Cmp(bigOf(s.First)) < 0 {
+			// last<first is syntactically invalid (observed only, decided before any
+			// part store is touched): in the quick tier only the first stack sends them
 			continue
 		}
-		srng := base.Fork("sampled/" + c.stack + "/" + sh.label())
-		for n, s := range sampledSingles(sh, srng, r.N(20, 200)) {
-			c.check(o, []rspec{s}, ",", n%24 == 0, true)
+		c.check(o, []rspec{s}, ",", n%16 == 0, true)
+	}
+	c.exh.mu.Lock()
+	c.exh.Objects++
+	c.exh.Ranges += int64(len(singles))
+	if sh.size() > c.exh.MaxSize {
+		c.exh.MaxSize = sh.size()
+	}
+	c.exh.mu.Unlock()
+	mrng := base.Fork("multi/" + c.stack + "/" + sh.label())
+	for m := 0; m < r.N(60, 400); m++ {
+		specs, tags := genMulti(mrng, sh.size(), nil)
+		for t := range tags {
+			r.Count("multi_lists:"+t, 1)
 		}
-		offs := interestingOffsets(sh)
-		for m := 0; m < r.N(30, 300); m++ {
-			specs, tags := genMulti(srng, sh.size(), offs)
-			for t := range tags {
-				r.Count("multi_lists:"+t, 1)
-			}
-			r.Count(fmt.Sprintf("multi_lists_by_length:%d", len(specs)), 1)
-			c.check(o, specs, pickS(srng, ",", ", "), m%8 == 0, true)
+		r.Count(fmt.Sprintf("multi_lists_by_length:%d", len(specs)), 1)
+		c.check(o, specs, pickS(mrng, ",", ", "), m%4 == 0, true)
+	}
+}
+
+// block 2: a larger object, ranges aimed at part / segment edges
+func (c *c05ctx) sampledObject(o *c05obj, base *vkit.Rand) {
+	r, sh := c.r, o.shape
+	srng := base.Fork("sampled/" + c.stack + "/" + sh.label())
+	for n, s := range sampledSingles(sh, srng, r.N(20, 200)) {
+		c.check(o, []rspec{s}, ",", n%24 == 0, true)
+	}
+	offs := interestingOffsets(sh)
+	for m := 0; m < r.N(30, 300); m++ {
+		specs, tags := genMulti(srng, sh.size(), offs)
+		for t := range tags {
+			r.Count("multi_lists:"+t, 1)
 		}
+		r.Count(fmt.Sprintf("multi_lists_by_length:%d", len(specs)), 1)
+		c.check(o, specs, pickS(srng, ",", ", "), m%8 == 0, true)
 	}
 }
 
